@@ -741,6 +741,34 @@ def q_checks(ctx):
     mono("angle", "c14-order:angle", 0.0, 2.0, run_angle, 6 * k)
 
 
+def batch_checks(ctx):
+    """the public methods are vectorised: a call on N points / vectors / distances must return, row by row
+    and bit for bit, what N single calls return (every N, in particular N = 1, 2, 3, 4 where an (N, 3) array
+    could be mistaken for its transpose); the per-sample interval goals are about single calls"""
+    rng = ctx.rng
+    AC, AD = impl.AngularCoordinates, impl.AngularDistances
+    for N in [1, 2, 3, 4, 5, 7] * ctx.n(2, 12):
+        pts = np.array([sphere_point(rng) for _ in range(N)], dtype="f8")
+        vec = AC(pts).to_3d()
+        one = np.array([AC(pts[i:i + 1]).to_3d()[0] for i in range(N)])
+        back = AC.from_3d(vec).data
+        back1 = np.array([AC.from_3d(vec[i:i + 1]).data[0] for i in range(N)])
+        other = np.array([sphere_point(rng) for _ in range(N)], dtype="f8")
+        dist = AC(pts).distance(AC(other)).data
+        dist1 = np.array([AC(pts[i:i + 1]).distance(AC(other[i:i + 1])).data[0] for i in range(N)])
+        ch = AD(dist).to_3d()
+        ch1 = np.array([AD(dist[i:i + 1]).to_3d()[0] for i in range(N)])
+        an = AD.from_3d(ch).data
+        an1 = np.array([AD.from_3d(ch[i:i + 1]).data[0] for i in range(N)])
+        ctx.count(key=("batch", N, pts.tobytes()), nontrivial=N > 1, kind="batch/N%d" % N)
+        for name, a, b in (("to_3d", vec, one), ("from_3d", back, back1), ("distance", dist, dist1), ("chord", ch, ch1), ("angle", an, an1)):
+            if a.shape != b.shape or a.tobytes() != b.tobytes():
+                ctx.fail("c14-batch-differs:%s" % name, "%s on %d points differs from %d single calls (shape %s vs %s)"
+                         % (name, N, N, a.shape, b.shape), dict(N=N, points=[[hexf(x) for x in p] for p in pts.tolist()]),
+                         case=("batch", name, N))
+                break
+
+
 def interval_axioms(ctx):
     """record verbatim what Interval adds to the trusted base (Print Assumptions of a lemma proved by `interval`)"""
     path = os.path.join(ctx.workdir, "Axioms_C14.v")
@@ -769,6 +797,7 @@ def run(ctx):
     verdict = check_goals(ctx, samples, "Goals_C14")
     judge(ctx, samples, verdict)
     q_checks(ctx)
+    batch_checks(ctx)
     ctx.log("undecided goals: %d" % ctx.extra.get("undecided", 0))
 
 
